@@ -810,6 +810,11 @@ func (rl *Shell) keywordSwitch(increase bool) {
 		bpos--
 	}
 
+	// Nothing to switch on an empty line, or without a word under the cursor.
+	if bpos < 0 || epos > rl.line.Len() || bpos > epos {
+		return
+	}
+
 	// Get the selection string
 	selection := string((*rl.line)[bpos:epos])
 
